@@ -203,7 +203,8 @@ Proof. destruct o; cbn [step].
       * intros Hin. destruct (H1 Hin) as [H|(x & -> & H)]; [discriminate|]. inversion H; subst. reflexivity.
       * pose proof (heartbeat_check_no_chan c s1 y) as H. destruct (heartbeat_check c s1) as [[[s2 cbs2] hang2] r]. cbn [fst snd] in H.
         destruct hang2; cbn [fst snd]; intros Hin; apply in_app_or in Hin; destruct Hin as [Hin|Hin]; try (exfalso; auto; fail);
-          destruct (H1 Hin) as [H0|(x & -> & H0)]; try discriminate; inversion H0; subst; reflexivity. Qed.
+          destruct (H1 Hin) as [H0|(x & -> & H0)]; try discriminate; inversion H0; subst; reflexivity.
+  - unfold do_close_handle. repeat dmatch; cbn [fst snd]; intros []. Qed.
 
 Lemma step_chan_errs_ok c s o : chan_errs_ok o (snd (fst (snd (step c s o)))) = true.
 Proof. unfold chan_errs_ok. apply forallb_forall. intros cb0 Hin. destruct cb0; auto. destruct e; auto.
@@ -388,6 +389,11 @@ Proof. intros Hd Hi I W Ht.
       assert (Q3 : (w_tprev w + KEEPALIVE_TIMEOUT_MS <? w_now w) && w_bound w && negb (w_hbenv w =? 1) && negb (has_err EHeartbeatLost (cbs1 ++ cbs2) && closed s2) = false)
         by (destruct ((w_tprev w + KEEPALIVE_TIMEOUT_MS <? w_now w) && w_bound w && negb (w_hbenv w =? 1)); [rewrite (C3 eq_refl)|]; reflexivity).
       rewrite Q1, Q0, Q2, Q3. eexists; split; [reflexivity|exact C4].
+  - (* CloseHandle: only the handle's own flag *)
+    assert (He : env_eq s s' /\ client_id s' = client_id s).
+    { unfold do_close_handle in Es. destruct k; try (inversion Es; subst; split; [apply env_eq_refl|reflexivity]);
+        (destruct (user_obj _ r0 s); inversion Es; subst; (split; [|reflexivity]); [unfold env_eq; cbn; tauto|apply env_eq_refl]). }
+    eexists. split; [reflexivity|]. apply (cw_env c0 w s s'); tauto.
 Qed.
 
 Lemma core_run c0 tdrv tis ops : forall w s,
